@@ -107,7 +107,18 @@ Fixed == <<
      SFun("fl", <<"n">>, << SVarList(<<SVar("k", Bin("*", Id("n"), NumL(2))), SVar("m", Plus(Id("k"), Id("n")))>>), SReturn(Id("m")) >>), SPrint(Call(Id("fl"), <<NumL(3)>>)),
      SFor(SVarList(<<SVar("x", NumL(5)), SVar("y", Bin("*", Id("x"), Id("x")))>>), Bin("<", Id("x"), NumL(6)), Asg("x", Plus(Id("x"), NumL(1))), SBlock(<<SPrint(Id("y"))>>)) >>,
   << SBlock(<< SVar("a", NumL(1)), SFun("ga", <<>>, <<SReturn(Id("a"))>>), SBlock(<< SVar("a", NumL(2)), SPrint(Call(Id("ga"), <<>>)), SPrint(Id("a")) >>), SPrint(Call(Id("ga"), <<>>)) >>),
-     SBlock(<< SVar("a", NumL(3)), SFun("ga", <<>>, <<SReturn(Id("a"))>>), SPrint(Call(Id("ga"), <<>>)) >>) >>
+     SBlock(<< SVar("a", NumL(3)), SFun("ga", <<>>, <<SReturn(Id("a"))>>), SPrint(Call(Id("ga"), <<>>)) >>) >>,
+  \* round 7: a function declared in an inner block (one without any variable declaration) SHADOWS a function of the same
+  \* name further out - the enclosing function's own name included - and is gone when the block ends
+  << SFun("h", <<>>, <<SReturn(NumL(1))>>),
+     SFun("outer", <<"n">>, << SIf(Bin(">", Id("n"), NumL(0)), SBlock(<< SFun("h", <<>>, <<SReturn(NumL(2))>>), SPrint(Call(Id("h"), <<>>)) >>), None),
+                               SPrint(Call(Id("h"), <<>>)), SReturn(NumL(0)) >>),
+     SExpr(Call(Id("outer"), <<NumL(1)>>)), SPrint(Call(Id("h"), <<>>)),
+     SBlock(<< SFun("h", <<>>, <<SReturn(NumL(3))>>), SPrint(Call(Id("h"), <<>>)) >>), SPrint(Call(Id("h"), <<>>)),
+     SFun("rec", <<"n">>, << SIf(Bin("==", Id("n"), NumL(2)), SBlock(<< SFun("rec", <<"k">>, <<SReturn(NumL(50))>>), SPrint(Call(Id("rec"), <<NumL(9)>>)) >>), None),
+                             SIf(Bin("<", Id("n"), NumL(1)), SBlock(<<SReturn(NumL(0))>>), None),
+                             SReturn(Plus(NumL(1), Call(Id("rec"), <<Bin("-", Id("n"), NumL(1))>>))) >>),
+     SPrint(Call(Id("rec"), <<NumL(4)>>)) >>
 >>
 All == SelectSeq(SeqN(Budget, MaxDepth, FALSE), LAMBDA x : InDomainSeq(x, {})) \o Randoms \o Fixed
 Cases == All
